@@ -29,7 +29,8 @@ REQUIRED = ["contract:CVR.make_phantoms", "accounting_checked:style", "accountin
             "phantom_cvr_pairs", "phantom_cvr_with_votes_pairs", "second_call_on_same_input_list", "shortfalls_all_different",
             "pool_means_with_phantoms_checked", "pool_means_with_phantoms_checked:assorter_bound_not_1",
             "audit_wide_max_cards_differs_from_stratum_bound", "phantom_mvrs_for_sampled_phantom_cards_checked",
-            "phantom_mvrs_for_sampled_phantom_cards_checked:another_prefix", "contest_with_card_bound_zero", "call_on_a_list_that_already_holds_phantoms:no_style", "assorter:plurality", "assorter:supermajority", "assorter:irv"]
+            "phantom_mvrs_for_sampled_phantom_cards_checked:another_prefix", "contest_with_card_bound_zero", "call_on_a_list_that_already_holds_phantoms:no_style",
+            "phantom_manual_record_built_by_from_raire", "assorter:plurality", "assorter:supermajority", "assorter:irv"]
 ASSUMPTIONS = ["card bounds >= number of records listing the contest; with style the input list holds no phantoms (the "
                "function is documented for 'the reported CVRs'); without style it may",
                "a phantom labelled pooled inside a pooled batch is scored with that batch's mean by design (C03 depends "
@@ -210,6 +211,14 @@ def run_case(es, rec):
                     cv = sim.cvr_list[i]
                     mv = sim.mvr_for(i)
                     ph = CVR(id=cv.id, votes={}, phantom=True)
+                    if i % 7 == 3:
+                        # an unfindable card recorded through the RAIRE route (a line with no ranking, loaded as phantom)
+                        ok0, rr = rec.guard("c08.call:from_raire", CVR.from_raire,
+                                            [["1"], ["Contest", cid, "1", "x", "winner", "x"], [cid, cv.id]], phantom=True)
+                        if not ok0:
+                            return
+                        ph = rr[0][0]
+                        rec.count("phantom_manual_record_built_by_from_raire")
                     ok1, b_real = rec.guard(f"c08.call:overstatement_assorter:{sc['kind']}", a.overstatement_assorter, mv, cv, sim.use_style)
                     ok2, b_ph = rec.guard(f"c08.call:overstatement_assorter:{sc['kind']}", a.overstatement_assorter, ph, cv, sim.use_style)
                     if not (ok1 and ok2):
